@@ -10,7 +10,7 @@ from sklearn.base import clone
 PROPERTY = "C03"
 RULE = ("refit:<class>: for every fit-able registry class Hypothesis draws a configuration, a pool of 2-3 data sets with different sizes, "
         "dimensions, label sets or vocabularies, and a history of fits (data set index, NumPy global seed); outputs are requested between "
-        "fits so that caches exist. Invariant after every fit: the instance's fingerprint (public outputs on a probe batch + documented "
+        "fits so that caches exist; in a third of the cases the instance is also given a second configuration (set_params with all top-level parameters) between fits. Invariant after every fit: the instance's fingerprint (public outputs on a probe batch + documented "
         "fitted attributes) equals that of clone(instance).fit(same data) under the same seed (exact, one thread), and a second fresh "
         "clone fitted under the same seed agrees too. random-state: KMeansL1L2 with an int random_state (documented as making it "
         "deterministic) gives the same model under two different global seeds; the same comparison for PermutationReciprocalTransformer, "
@@ -40,7 +40,17 @@ def check_refit(case):
     inst = R.build(case["spec"])
     prev = None
     differing = False
-    for step, (i, seed) in enumerate(case["history"]):
+    current = 0
+    reconfigured = False
+    for step, h in enumerate(case["history"]):
+        i, seed = h[0], h[1]
+        want = h[2] if len(h) > 2 and case.get("spec2") is not None else 0
+        if want != current:
+            # the instance is given another configuration between two fits (what a grid search does with one object): the clone it is
+            # compared with has the new parameters, so anything that survives from the earlier configuration's fit shows
+            inst.set_params(**R.build(case["spec2"] if want == 1 else case["spec"]).get_params(deep=False))
+            current = want
+            reconfigured = True
         data = case["datasets"][i]
         X, y = _fit(entry, inst, data, seed)
         got = _fp(entry, inst, data, X, y, seed)
@@ -48,7 +58,7 @@ def check_refit(case):
         Xf, yf = _fit(entry, fresh, data, seed)
         ref = _fp(entry, fresh, data, Xf, yf, seed)
         d = R.same_fingerprint(got, ref, exact=entry.exact)
-        f2 = dict(facts, step=step, refit=step > 0)
+        f2 = dict(facts, step=step, refit=step > 0, reconfigured=reconfigured)
         require(d is None, "refit:differs-from-clone-fit" if step > 0 else "fit:differs-from-clone-fit",
                 "after fitting data set %d (step %d of the history) the instance differs from a fresh clone fitted on it: %s" % (i, step, d), f2)
         fresh2 = clone(inst)
@@ -59,7 +69,8 @@ def check_refit(case):
             differing = True
         prev = i
     nfits = len(case["history"])
-    return Outcome([name, "fits=%d" % min(nfits, 4), "different-datasets" if differing else "same-dataset"], nfits >= 2 and differing)
+    return Outcome([name, "fits=%d" % min(nfits, 4), "different-datasets" if differing else "same-dataset", "reconfigured-between-fits" if reconfigured else "one-configuration"],
+                   nfits >= 2 and (differing or reconfigured))
 
 
 @st.composite
@@ -70,10 +81,11 @@ def _refit_cases(draw, name, tier="quick"):
     nd = draw(st.integers(2, 3))
     datasets = [entry.data(draw) for _ in range(nd)]
     nh = draw(st.integers(2, 4 if tier == "quick" else 6))
-    history = [[draw(st.integers(0, nd - 1)), draw(st.integers(0, 2**31 - 10))] for _ in range(nh)]
+    spec2 = R.spec_for(name, draw, flavour) if draw(st.integers(0, 2)) == 0 else None
+    history = [[draw(st.integers(0, nd - 1)), draw(st.integers(0, 2**31 - 10)), draw(st.integers(0, 1))] for _ in range(nh)]
     if len(set(h[0] for h in history)) == 1:
         history[-1][0] = (history[-1][0] + 1) % nd
-    return dict(cls=name, spec=spec, datasets=datasets, history=history)
+    return dict(cls=name, spec=spec, spec2=spec2, datasets=datasets, history=history)
 
 
 def check_random_state(case):
